@@ -1,2 +1,55 @@
-/* placeholder, replaced by the C20 trace recorder */
-int vf_trace_present(void) { return 0; }
+/*
+ * C20 trace recorder.  LD_PRELOADed (compiled WITHOUT instrumentation) in front of the
+ * -finstrument-functions -fsanitize-coverage=trace-pc build of the library.
+ *  - call events: callee entry address, recorded only when the call site lies inside one of the
+ *    registered address ranges (the bodies of the algorithm under observation)
+ *  - pc events: return address of every __sanitizer_cov_trace_pc callback (= basic block id)
+ * Nothing is recorded unless armed.
+ */
+#define _GNU_SOURCE
+#include <stdint.h>
+#include <stddef.h>
+#include <stdlib.h>
+#define NI __attribute__((no_instrument_function))
+#define MAXR 256
+static volatile int armed_calls, armed_pc;
+static uintptr_t *cbuf, *pbuf;
+static size_t ccap, cn, pcap, pn, cdrop, pdrop;
+static uintptr_t rlo[MAXR], rhi[MAXR];
+static int nr;
+
+NI int vt_init(size_t call_cap, size_t pc_cap) {
+	cbuf = (uintptr_t *)malloc(call_cap * sizeof(uintptr_t));
+	pbuf = (uintptr_t *)malloc(pc_cap * sizeof(uintptr_t));
+	ccap = call_cap; pcap = pc_cap;
+	return cbuf != NULL && pbuf != NULL;
+}
+NI void vt_ranges(const uintptr_t *lohi, int n) {
+	nr = n > MAXR ? MAXR : n;
+	for (int i = 0; i < nr; i++) { rlo[i] = lohi[2 * i]; rhi[i] = lohi[2 * i + 1]; }
+}
+NI void vt_arm(int calls, int pc) { cn = pn = cdrop = pdrop = 0; armed_pc = pc; armed_calls = calls; }
+NI void vt_disarm(void) { armed_calls = 0; armed_pc = 0; }
+NI size_t vt_ncalls(void) { return cn; }
+NI size_t vt_npcs(void) { return pn; }
+NI size_t vt_dropped(void) { return cdrop + pdrop; }
+NI uintptr_t *vt_calls(void) { return cbuf; }
+NI uintptr_t *vt_pcs(void) { return pbuf; }
+NI void __cyg_profile_func_enter(void *fn, void *cs) {
+	if (armed_calls) {
+		uintptr_t a = (uintptr_t)cs;
+		for (int i = 0; i < nr; i++) {
+			if (a >= rlo[i] && a < rhi[i]) {
+				if (cn < ccap) cbuf[cn++] = (uintptr_t)fn; else cdrop++;
+				return;
+			}
+		}
+	}
+}
+NI void __cyg_profile_func_exit(void *fn, void *cs) { (void)fn; (void)cs; }
+NI void __sanitizer_cov_trace_pc(void) {
+	if (armed_pc) {
+		if (pn < pcap) pbuf[pn++] = (uintptr_t)__builtin_return_address(0); else pdrop++;
+	}
+}
+int vf_trace_present(void) { return 1; }
